@@ -19,6 +19,8 @@ ObsReason(view, o, exts) ==
   ELSE IF view # "raw" /\ ObsExts(o) # exts THEN "ids_or_values"
   ELSE IF view # "raw" /\ \E i \in 1..Len(o.probes) : o.probes[i].val # Lookup(exts, o.probes[i].id) THEN "get_disagrees"
   ELSE IF o.size # Len(o.marshal) THEN "marshal_size"
+  ELSE IF ~o.mt_short THEN "marshal_to_accepts_a_short_destination"
+  ELSE IF ~o.mt_long THEN "marshal_to_disagrees_with_marshal"
   ELSE IF view # "raw" THEN
         LET r == BlockExts(view, o.marshal) IN
         IF ~r.ok THEN "serialised_block_malformed"
